@@ -75,11 +75,14 @@ Qed.
 
 (* ---------- step inversion ---------- *)
 
+(* a constant is an operation without operands (repair F20) *)
 Definition node_op (nd : ntype) : option (optype * list nat) :=
   match nd with
   | And cs => Some (OpAnd, cs)
   | Or cs => Some (OpOr, cs)
-  | _ => None
+  | TrueN => Some (OpAnd, [])
+  | FalseN => Some (OpOr, [])
+  | Lit _ => None
   end.
 
 Definition alloc (st : tstate) (op : optype) (lits : list Z) : tstate :=
@@ -95,14 +98,35 @@ Inductive step_case (len : nat) (st : tstate) (nd : ntype) (st' : tstate) : Prop
     node_op nd = Some (op, [c]) -> (c < len)%nat ->
     st' = set_literal (nth c (ts_lits st) 0) st -> step_case len st nd st'
 | sc_hit op cs v :
-    node_op nd = Some (op, cs) -> (2 <= length cs)%nat -> Forall (fun c => (c < len)%nat) cs ->
+    node_op nd = Some (op, cs) -> length cs <> 1%nat -> Forall (fun c => (c < len)%nat) cs ->
     cache_get (ts_cache st) op (lits_of_children st cs) = Some v ->
     st' = set_literal v st -> step_case len st nd st'
 | sc_fresh op cs :
-    node_op nd = Some (op, cs) -> (2 <= length cs)%nat -> Forall (fun c => (c < len)%nat) cs ->
+    node_op nd = Some (op, cs) -> length cs <> 1%nat -> Forall (fun c => (c < len)%nat) cs ->
     cache_get (ts_cache st) op (lits_of_children st cs) = None ->
     st' = set_literal (ts_idx st) (alloc st op (lits_of_children st cs)) ->
     step_case len st nd st'.
+
+Lemma step_lits_inv len op cs st st' nd :
+  node_op nd = Some (op, cs) -> Forall (fun c => (c < len)%nat) cs ->
+  step_lits op (lits_of_children st cs) st = Done st' -> step_case len st nd st'.
+Proof.
+  intros Hnd HF. unfold step_lits, transform_operation.
+  destruct cs as [|c1 [|c2 cs]].
+  - cbn [lits_of_children map].
+    change (@nil Z) with (lits_of_children st []) at 1 2 3.
+    destruct (cache_get (ts_cache st) op (lits_of_children st [])) as [v|] eqn:Hc.
+    + intros H. inversion H; subst. eapply sc_hit; [exact Hnd|cbn; lia|exact HF|exact Hc|reflexivity].
+    + intros H. inversion H; subst. eapply sc_fresh; [exact Hnd|cbn; lia|exact HF|exact Hc|reflexivity].
+  - cbn [lits_of_children map]. intros H. inversion H; subst.
+    eapply sc_single; [exact Hnd| |reflexivity]. now inversion HF.
+  - cbn [lits_of_children map].
+    change (nth c1 (ts_lits st) 0 :: nth c2 (ts_lits st) 0 :: map (fun c => nth c (ts_lits st) 0) cs)
+      with (lits_of_children st (c1 :: c2 :: cs)).
+    destruct (cache_get (ts_cache st) op (lits_of_children st (c1 :: c2 :: cs))) as [v|] eqn:Hc.
+    + intros H. inversion H; subst. eapply sc_hit; [exact Hnd|cbn; lia|exact HF|exact Hc|reflexivity].
+    + intros H. inversion H; subst. eapply sc_fresh; [exact Hnd|cbn; lia|exact HF|exact Hc|reflexivity].
+Qed.
 
 Lemma step_op_inv len op cs st st' nd :
   node_op nd = Some (op, cs) ->
@@ -113,22 +137,29 @@ Proof.
   assert (HF : Forall (fun c => (c < len)%nat) cs).
   { apply Forall_forall. intros c Hc. rewrite forallb_forall in Hall. apply Nat.ltb_lt. now apply Hall. }
   change (map (fun c => nth c (ts_lits st) 0) cs) with (lits_of_children st cs).
-  unfold transform_operation.
-  destruct cs as [|c1 [|c2 cs]]; cbn [lits_of_children map].
-  - discriminate.
-  - intros H. inversion H; subst. eapply sc_single; [exact Hnd| |reflexivity].
-    now inversion HF.
-  - change (nth c1 (ts_lits st) 0 :: nth c2 (ts_lits st) 0 :: map (fun c => nth c (ts_lits st) 0) cs)
-      with (lits_of_children st (c1 :: c2 :: cs)).
-    destruct (cache_get (ts_cache st) op (lits_of_children st (c1 :: c2 :: cs))) as [v|] eqn:Hc.
-    + intros H. inversion H; subst. eapply sc_hit; [exact Hnd|cbn; lia|exact HF|exact Hc|reflexivity].
-    + intros H. inversion H; subst. eapply sc_fresh; [exact Hnd|cbn; lia|exact HF|exact Hc|reflexivity].
+  now apply step_lits_inv.
 Qed.
 
 Lemma step_inv len st nd st' : step len st nd = Done st' -> step_case len st nd st'.
 Proof.
-  destruct nd as [l|cs|cs| |]; cbn [step]; intros H; try discriminate.
+  destruct nd as [l|cs|cs| |]; cbn [step]; intros H.
   - inversion H; subst. now eapply sc_lit.
   - now apply (step_op_inv len OpAnd cs).
   - now apply (step_op_inv len OpOr cs).
+  - apply (step_lits_inv len OpAnd [] st st' TrueN eq_refl (Forall_nil _) H).
+  - apply (step_lits_inv len OpOr [] st st' FalseN eq_refl (Forall_nil _) H).
+Qed.
+
+(* the repaired walk stops only at a child index outside the vector *)
+Lemma step_total len st nd :
+  forallb (fun c => Nat.ltb c len) (children nd) = true -> exists st', step len st nd = Done st'.
+Proof.
+  assert (HL : forall op lits, exists st', step_lits op lits st = Done st').
+  { intros op lits. unfold step_lits, transform_operation.
+    destruct lits as [|l1 [|l2 lits]]; try (eexists; reflexivity);
+      destruct (cache_get _ _ _); eexists; reflexivity. }
+  destruct nd as [l|cs|cs| |]; cbn [step children]; intros H; try apply HL.
+  - eexists; reflexivity.
+  - unfold step_op, nodes_to_literals. rewrite H. apply HL.
+  - unfold step_op, nodes_to_literals. rewrite H. apply HL.
 Qed.
